@@ -192,6 +192,19 @@ def numpy_models():
             return wrap64(sum(int(v) for v in items))
         return float(sum(float(v) for v in items))
     out['ext:numpy.sum'] = np_sum
+
+    def factorial2(n, exact=False, **kw):
+        """scipy.special.factorial2: n!! (1 for n in {0, -1}, 0 below -1)"""
+        if kw or isinstance(n, bool) or not isinstance(n, int):
+            raise Unmodelled('scipy.special.factorial2 on a non-integer')
+        if n < -1:
+            return 0 if exact else 0.0
+        res = 1
+        while n > 1:
+            res *= n
+            n -= 2
+        return res if exact else float(res)
+    out['ext:scipy.special.factorial2'] = factorial2
     return out
 
 
